@@ -21,15 +21,15 @@ from . import c07
 def run(ctx) -> None:
     ctx.rule("a.length-guard", "every store of a Table's column tuple is dominated by a guard that raises unless EVERY "
                                "incoming column has the table's length (construction: loop over all columns; replacement / "
-                               ">> dict: len(value) != self._length, conjoined at most with `self._underlying`)", 3)
+                               ">> dict: len(value) != self._length, conjoined at most with `self._underlying`)", 2)
     ctx.rule("a.length-field", "_length is stored only by Table.__init__ (from the first column) and __len__ returns it", 2)
     ctx.rule("b.write-keeps-length", "Vector.__setitem__ materialises list(<old storage>) and only ever assigns single positions "
                                      "of it; _promote rebuilds from ALL elements (no filter): a column never changes length", 2)
     ctx.rule("c.uniform-rows", "row slices / masks / index vectors map the same key over all columns (as C07.e)", 4)
     ctx.rule("d.row-view", "Row snapshots [col._underlying for col in table._underlying] (unfiltered, in order, straight from the "
-                           "table) and every Row accessor indexes that snapshot with the row index; iteration yields rows 0..len-1", 6)
+                           "table) and every Row accessor indexes that snapshot with the row index; iteration yields rows 0..len-1", 4)
     ctx.rule("e.structural-ops", ">> keeps the existing columns first and untouched, << appends per column over zip(strict) after "
-                                 "a width check (a str cell is one cell), .T builds row i from column cells [i] of all columns", 5)
+                                 "a width check (a str cell is one cell), .T builds row i from column cells [i] of all columns", 3)
     ctx.section("guards", _guards, ctx)
     ctx.section("length-field", _length_field, ctx)
     ctx.section("writes", _writes, ctx)
